@@ -105,7 +105,9 @@ class CirculationPump(BranchWOInternalsComponent):
         junction_idx_lookups = get_lookup(net, "node", "index")[
             cls.get_connected_node_type().table_name()]
 
-        circ_pump_tbl = net[cls.table_name()][net[cls.table_name()][cls.active_identifier()].values]
+        # the branch pit holds one row per circulation pump, in or out of service (cf. create_pit_node_entries, where
+        # only the pumps in service fix a pressure)
+        circ_pump_tbl = net[cls.table_name()]
         circ_pump_pit = super().create_pit_branch_entries(net, branch_pit)
         circ_pump_pit[:, D] = 0.1
         circ_pump_pit[:, AREA] = circ_pump_pit[:, D] ** 2 * np.pi / 4
